@@ -681,7 +681,7 @@ def r16(ctx):
         raise AnalysisBroken('trie.c: %d trie_lookup calls found' % n)
     # (c) skiplist_put
     f = prog.fn('skiplist_put')
-    hdr = [st for st in f.events('STORE') if unwrap(st.lhs).get('k') == 'idx' and estr(unwrap(unwrap(st.lhs)['b'])) == 'update' and last_field(unwrap(st.rhs)) and last_field(unwrap(st.rhs))[1] == 'header']
+    hdr = [st for st in f.events('STORE') if unwrap(st.lhs).get('k') == 'idx' and unwrap(unwrap(st.lhs)['b']).get('k') == 'var' and unwrap(unwrap(st.lhs)['b']).get('sc') == 'l' and last_field(unwrap(st.rhs)) and last_field(unwrap(st.rhs))[1] == 'header']
     if not hdr:
         raise AnalysisBroken('skiplist_put: no update[level] = header store')
     iv = estr(unwrap(unwrap(hdr[0].lhs)['i']))
